@@ -88,6 +88,30 @@ def _payload_offset(body, lf_only, spaces, lower, fold, dup, extra, chunked):
     return len(hashers) >= 1 and all(h.fed == rest for h in hashers[-1:])
 
 
+_EXTRA = [('operator', 'me'), ('x-note', 'first line\r\nsecond: line'), ('x-lf', 'a\nb'), ('x-long', 'word ' * 300)]
+
+
+def _warcinfo_block_ok(block, extra):
+    """The warcinfo block is application/warc-fields: every line is 'name: value' or a folded continuation, and the names are
+    exactly the ones configured (nothing injected by a value)."""
+    text = bytes(block).decode('utf-8')
+    if not text.endswith('\r\n'):
+        return False
+    names = []
+    for line in text.split('\r\n'):
+        if line == '':
+            continue
+        if '\r' in line or '\n' in line:
+            return False
+        if line[0] in ' \t':
+            continue
+        if ':' not in line:
+            return False
+        names.append(line.split(':', 1)[0].lower())
+    want = ['software', 'format', 'conformsto'] + ([n for n, v in _EXTRA] if extra else [])
+    return names == want
+
+
 class _SeenTable:
     def __init__(self, seen):
         self.seen = seen
@@ -101,7 +125,7 @@ def _file_is_record_sequence(body, compress, digests, appending, rollover, extra
     body = fixlen(body, 2)
     fs = fakefs.FS()
     params = dict(compress=compress, digests=digests, appending=appending, max_size=(1 if rollover else None),
-                  extra_fields=[('operator', 'me'), ('x-long', 'v' * 20)] if extra_field else None,
+                  extra_fields=_EXTRA if extra_field else None,
                   url_table=_SeenTable(True) if seen else None)
     pre_ids = []
     if appending:
@@ -136,6 +160,8 @@ def _file_is_record_sequence(body, compress, digests, appending, rollover, extra
             ids.append(rid)
             if t == 'warcinfo':
                 info_id = rid                      # (an appended file holds one warcinfo record per run)
+                if not _warcinfo_block_ok(r['block'], extra_field):
+                    return False
             if warcenv.field(r, 'WARC-Warcinfo-ID') != info_id:
                 return False                        # every record points at the warcinfo record of ITS file / run
             if t == 'revisit':
